@@ -410,6 +410,31 @@ def run_check(mod, tier, seed, replay=None):
         corpus = [json.loads(f.read_text()) for f in sorted(corpus_dir.glob("*.json"))] if corpus_dir.exists() else []
         explore(corpus)
         explore(mod.cases(tier, rng))
+    # history / aliasing probe: a result must still be right after a LATER call (no shared output buffers, no state
+    # carried between calls).  Opt-in: impl_live(case) -> (live_object, canon_fn).
+    if hasattr(mod, "impl_live") and not replay:
+        pool = [c for c in (mod.live_cases(tier, rng) if hasattr(mod, "live_cases") else [])]
+        n_pairs = min(len(pool) // 2, 1500 if tier in ("thorough", "widen") else 300)
+        rng.shuffle(pool)
+        stats["kinds"]["history_pair"] = 0
+        for i in range(n_pairs):
+            c1, c2 = pool[2 * i], pool[2 * i + 1]
+            exp1 = mod.oracle(c1)
+            if isinstance(exp1, Skip):
+                continue
+            try:
+                obj1, canon1 = mod.impl_live(c1)
+                before = canon1(obj1)
+                keep2 = mod.impl_live(c2)      # kept alive while the first result is read again
+                after = canon1(obj1)
+            except Exception:
+                continue                        # a raising call is judged by the ordinary cases, not here
+            stats["kinds"]["history_pair"] += 1
+            stats["evaluations"] += 1
+            ok_before = mod.agree(c1, before, exp1) if hasattr(mod, "agree") else canon(before) == canon(exp1)
+            if ok_before and canon(before) != canon(after):
+                failures.append({"case": {"op": "history_pair", "first": c1, "then": c2}, "impl": {"before": before, "after": after},
+                                 "expected": exp1, "key": "history:result-changed-after-a-later-call"})
     if model_vs_spec:
         raise Machinery("Lean spec and Python oracle disagree (machinery error): " + canon(model_vs_spec[0])[:1500])
 
